@@ -86,10 +86,20 @@ func C16Read(r *eng.Run) {
 	cfg.Extended = false
 	r.SetEntry(cfg.Name())
 	budget := 400
-	if r.T.Chance(sim.LSize, 1, 12) {
-		budget = 70 * 1024
+	if r.T.Chance(sim.LSize, 1, 12) || (cfg.App == AppReadFrame && r.T.Bool(sim.LSize)) {
+		budget = 72 * 1024
 	}
 	s := GenStream(r, StreamCfg{Recv: cfg.Side, MaxMsgs: 3, TextValid: true, Budget: budget})
+	if budget > 400 && cfg.App == AppReadFrame && r.T.Bool(sim.LSize) {
+		// One frame beyond 64 KiB for certain.
+		big := &ref.Frame{Fin: true, Op: ref.OpBinary, Payload: drawPayload(r, 65537+r.T.Int(sim.LLen, 3000), false)}
+		if cfg.Side == ref.Server {
+			big.Masked, big.Mask = true, drawMask(r)
+		}
+		s = &Stream{Frames: []*ref.Frame{big}, Items: []Item{{Msg: &Msg{Op: big.Op, Payload: big.Payload, Frames: []*ref.Frame{big}, First: big, Last: big}}}}
+		s.Wire = ref.Encode(s.Frames)
+		r.Probe("frame_beyond_64k_cut")
+	}
 	seg := DrawSeg(r)
 	withData := r.T.Chance(sim.LFault, 1, 4)
 	model := Model(s, cfg)
